@@ -20,14 +20,37 @@
 #include "fileio/file.h"
 
 extern "C" { unsigned g_pc; int g_pc_known; int g_reset_calls; int g_break_io_seen; unsigned g_load_addr; int g_loaded; int g_prompted; }
-#ifdef LASTOPT
-/* second form: the command line ends in an option that takes a value (its value is missing) */
-static const char *const g_vocab[] = { "-set_pc", "-address", "-break_io", "-disasm_range", "-sim_serial", "a.hex" };
-#define NVOCAB 6
-#else
-static const char *const g_vocab[] = { "-set_pc", "-address", "-break_io", "-bin", "-msp430", "-zz", "0x1234", "77", "a.hex" };
-#define NVOCAB 9
+/* concrete command lines (symbolic argv words make CBMC's symbolic execution explore the whole command interpreter):
+   SCN 1..6 end at the first prompt; SCN 11..16 end in an option whose value is missing */
+#if SCN == 1
+static const char *const g_cmd[] = { "naken_util", "-set_pc", "0x1234" };
+#elif SCN == 2
+static const char *const g_cmd[] = { "naken_util", "-set_pc", "0x1234", "a.hex" };
+#elif SCN == 3
+static const char *const g_cmd[] = { "naken_util", "a.hex", "-set_pc", "77" };
+#elif SCN == 4
+static const char *const g_cmd[] = { "naken_util", "-msp430", "-set_pc", "0x1234" };
+#elif SCN == 5
+static const char *const g_cmd[] = { "naken_util", "-address", "0x1234", "-bin", "a.hex" };
+#elif SCN == 6
+static const char *const g_cmd[] = { "naken_util", "-break_io", "77", "-set_pc", "0x1234", "a.hex" };
+#elif SCN == 11
+static const char *const g_cmd[] = { "naken_util", "-disasm_range" };
+#elif SCN == 12
+static const char *const g_cmd[] = { "naken_util", "a.hex", "-disasm_range" };
+#elif SCN == 13
+static const char *const g_cmd[] = { "naken_util", "-set_pc" };
+#elif SCN == 14
+static const char *const g_cmd[] = { "naken_util", "a.hex", "-address" };
+#elif SCN == 15
+static const char *const g_cmd[] = { "naken_util", "-break_io" };
+#elif SCN == 16
+static const char *const g_cmd[] = { "naken_util", "a.hex", "-sim_serial", "1" };
 #endif
+#if SCN >= 11
+#define LASTOPT 1
+#endif
+#define NWORDS ((int)(sizeof(g_cmd) / sizeof(g_cmd[0])))
 /* --- contracts of what main() calls --- */
 Memory::Memory() {} Memory::~Memory() {}
 Symbols::Symbols() {} Symbols::~Symbols() {}
@@ -70,7 +93,7 @@ int Symbols::print(FILE *out) { return 0; }
 int file_read(const char *filename, UtilContext *util_context, int *file_type, const char *cpu_name, uint32_t start_address)
 {
   g_load_addr = start_address; g_loaded = 1;
-  return (nondet_int() & 1) ? 0 : -1;
+  return 0;   /* the file loads (a failing load ends main() before the simulator is touched) */
 }
 const char *file_get_file_type_name(int file_type) { return "hex"; }
 int AsmContext::assemble() { return 0; }
@@ -84,10 +107,14 @@ void Memory::write8(uint32_t a, uint8_t d) {}
 void tokens_close(AsmContext *) {}
 void tokens_reset(AsmContext *) {}
 extern "C" {
+#ifdef LASTOPT
 void exit(int code) { CANARY("exit() reachable"); ASSUME(0); }
+#else
+void exit(int code) { ASSUME(0); }
+#endif
 char *fgets(char *s, int n, FILE *f) { g_prompted = 1; return 0; }          /* end of input at the first prompt */
 int fflush(FILE *f) { return 0; }
-long strtol(const char *s, char **end, int base) { OBL(s != 0, "C17.cli: a numeric option value is present (argv[argc] is not used)"); return (s != 0 && s[0] == '0') ? 0x1234 : 77; }
+long strtol(const char *s, char **end, int base) { OBL(s != 0, "C17.cli: a numeric option value is present (argv[argc] is not used)"); ASSUME(s != 0); return s[0] == '0' ? 0x1234 : 77; }
 int atoi(const char *s) { return 77; }
 }
 #define printf(...) (0)
@@ -100,43 +127,22 @@ int atoi(const char *s) { return 77; }
 extern "C" void h_utilmain()
 {
   static Simulate sim(&g_mem); g_sim = &sim;
-  int argc = nondet_int(); ASSUME(argc >= 2 && argc <= 4);
-#ifdef LASTOPT
-  ASSUME(argc <= 3);
-#endif
-  char *argv[7];
-  int pick[6];
-  for (int i = 0; i < 6; i++)
-  {
-    pick[i] = nondet_int(); ASSUME(pick[i] >= 0 && pick[i] < NVOCAB);
-#ifdef LASTOPT
-    if (i == argc - 1) ASSUME(pick[i] < 5);        /* the last word is an option that needs a value */
-    else ASSUME(pick[i] == 5);                      /* before it: file names */
-#endif
-    argv[i] = (i < argc) ? (char *)&g_vocab[pick[i]][0] : (char *)0;
-  }
-  argv[6] = 0;
+  int argc = NWORDS;
+  char *argv[8];
+  for (int i = 0; i < 8; i++) argv[i] = (i < NWORDS) ? (char *)&g_cmd[i][0] : (char *)0;      /* argv[argc] == NULL */
   g_pc = 0; g_pc_known = 0; g_reset_calls = 0; g_loaded = 0; g_prompted = 0;
-  /* where is the last -set_pc / -address option with its value, as the documentation defines the command line */
   int r = naken_util_main(argc, argv);
-  int want_pc = 0; unsigned pc_val = 0; int k = 1;
-  /* reference scan of the command line: options with values consume the next argument */
-  for (int n = 0; n < 5; n++) if (k < argc)
-  {
-    int p = pick[k];
-    if (p == 0 && k + 1 < argc) { want_pc = 1; pc_val = (pick[k + 1] == 6) ? 0x1234 : 77; k += 2; }
-    else if ((p == 1 || p == 2) && k + 1 < argc) { k += 2; }
-    else k += 1;
-  }
 #ifndef LASTOPT
-  if (g_prompted && want_pc)
-    OBL(g_pc_known && g_pc == pc_val, "C19.cli: with -set_pc A the program counter at the first prompt is A (nothing resets it afterwards)");
-  if (g_prompted) OBL(g_reset_calls >= 1, "C19.cli: the simulator is reset before the first prompt");
+  OBL(g_prompted, "C19.cli: the command line is accepted and the first prompt is reached");
+#if SCN != 5
+  OBL(g_pc_known && g_pc == (SCN == 3 ? 77u : 0x1234u), "C19.cli: with -set_pc A the program counter at the first prompt is A (nothing resets it afterwards)");
+#else
+  OBL(g_loaded && g_load_addr == 0x1234, "C19.cli: -address A reaches the loader");
+#endif
+  OBL(g_reset_calls >= 1, "C19.cli: the simulator is reset before the first prompt");
+  CANARY("h_utilmain end");
 #else
   OBL(!g_prompted, "C17.cli: a command line that ends in an option without its value is rejected");
 #endif
   (void)r;
-#ifndef LASTOPT
-  CANARY("h_utilmain end");
-#endif
 }
